@@ -4,21 +4,31 @@
   python3 t5_cfg.py --build /verif/.build/lib --out /verif/coq/Gen [--props /verif/coq/Props]
 
 For every NASM-built object (*.asm.o) of the library build:
-  * disassemble with `objdump -d -r -z -M intel --no-show-raw-insn`,
-  * read the symbol table with `readelf -sW`,
-  * build, for every function (global code symbol or call target), the exact static CFG
-    (there are no indirect branches in the hand written objects; one found => abort),
-  * map every instruction to an abstract *frame instruction* (coq/X86/Frame.v) through the
-    explicit mnemonic tables below (an unknown mnemonic or operand shape => abort, never guess),
-  * run the abstract interpretation (same transfer function as coq/X86/FrameCheck.v,
-    re-implemented here; this copy is NOT trusted: Coq re-validates the annotation),
-  * infer per-function summaries in call-graph order,
-  * write Gen/GenCfg_<obj>.v (CFG + annotation certificate + summaries) and
-    Props/Properties_C18_<obj>.v, only when the content changed.
+  * disassemble with `objdump -D -r -z -M intel --no-show-raw-insn -j <executable sections>`
+    (-D because NASM types some local code labels as OBJECT), read symbols with `readelf -sW/-SW`,
+  * build, for every function (global code symbol or call target), the exact static CFG by
+    reachability from its entry (there are no indirect branches in the hand written objects; one
+    found => abort; code shared by several entries is duplicated into each of them),
+  * map every instruction to an abstract *frame instruction* (coq/X86/Frame.v) through the explicit
+    mnemonic tables below (an unknown mnemonic or operand shape => abort, never guess),
+  * run the abstract interpretation (same transfer function as coq/X86/FrameCheck.v, re-implemented
+    here; this copy is NOT trusted: Coq re-validates the annotation it proposes),
+  * infer per-function summaries in call-graph order (functions callable from C are validated
+    against the System V summary, internal kernels against what they really preserve),
+  * write, only when the content changed:
+      Gen/GenCfg_<obj>.v              CFGs + certificates + `all_functions_<obj>`
+      Gen/GenCfgAll.v                 `all_defs` = concatenation over all objects
+      Gen/GenCfgIndex.json            objects, functions, instruction counts, C-reachability, summaries,
+                                      A1 statistics, predicted failures (function / block / path / register)
+      Props/Properties_C18_<obj>.v    `Theorem c18_<obj> : forallb fdef_ok all_functions_<obj> = true.`
+      Props/Properties_C18_All.v      whole-library glue (c18_all_checked, c18_link, c18_calling_convention)
+    and remove generated files of objects that no longer exist.
 
-Trusted parts of this file: objdump/readelf decoding, `decode()` (mnemonic -> frame effect),
-the classification of pointer stores (assumption A1), straight-line block collapsing and the
-list of C-reachable functions.  See coq/X86/C18_NOTES.md.
+Exit status: 0 = translated (possibly with *predicted* failures, Coq is the arbiter), 2 = aborted.
+
+Trusted parts of this file: objdump/readelf decoding, `decode()` (mnemonic -> frame effect), the
+classification of pointer stores (assumption A1), straight-line block collapsing and the list of
+C-reachable functions.  See coq/X86/C18_NOTES.md.
 """
 import sys, os, re, json, subprocess, argparse, hashlib, time
 from collections import OrderedDict, defaultdict
